@@ -623,6 +623,11 @@ Proof.
   intros xs rest He Hn. apply (try_collect_first_err bk s xs rest); assumption.
 Qed.
 
+(* (18) winsorize for EVERY input (C09_generators_well_formed states it for two-element inputs only) *)
+Theorem C09_winsorize_well_formed :
+  forall xs : list val, wfb true (winsorize xs) /\ length (elems (winsorize xs)) = length xs.
+Proof. exact winsorize_wf. Qed.
+
 (* ---- non-vacuity for (10)-(17) ------------------------------------------------------------------------- *)
 Example C09_example_audit :
   (* a lying TrustIter: shift keeps what is announced *)
@@ -723,3 +728,4 @@ Print Assumptions C09_partition_idealisation_exact.
 Print Assumptions C09_collect_every_backend.
 Print Assumptions C09_write_into_buffer.
 Print Assumptions C09_try_collect.
+Print Assumptions C09_winsorize_well_formed.
